@@ -1006,7 +1006,7 @@ pub fn cins_line(ctx: &mut Ctx, k: u64, v: &[u8]) -> String {
     for i in 0..ranges.len() {
         for j in i + 1..ranges.len() {
             let (a, b2) = (ranges[i], ranges[j]);
-            if a.0 < b2.1 && b2.0 < a.1 {
+            if a.0 < a.1 && b2.0 < b2.1 && a.0 < b2.1 && b2.0 < a.1 {
                 fails.push("C06:ranges-overlap".into());
             }
         }
